@@ -336,9 +336,6 @@ func checkUndo(kind string, uc *undoCase) {
 					}()
 					t = d.UnspentGet(&btc.TxPrevOut{Hash: rc.TxID, Vout: uint32(o.Idx)})
 				}()
-				if uc.Compressed && nonCanonicalOnCurve(o.Scr) {
-					continue // known finding class keyNonCanon, judged by the record streams
-				}
 				if pan != "" || t == nil || t.Value != o.Val || !bytes.Equal(t.Pk_script, o.Scr) || t.BlockHeight != rc.Height || t.WasCoinbase != rc.CB {
 					got := "nil"
 					if pan != "" {
